@@ -362,7 +362,8 @@ impl Builder {
 
         let mut header = self.header.take().unwrap_or_default();
 
-        if self.length.is_some() {
+        if let Some(length) = self.length {
+            header[LENGTH..LENGTH + 2].copy_from_slice(length.to_be_bytes().as_slice());
             return Ok(header);
         }
 
